@@ -116,7 +116,7 @@ def gen_listing(rng, names, n_entries=None):
         if r < 0.22:
             out.append(("dir", rng.choice(["d", "a/b", "ä", "x y", "file", ""]), gen_ts(rng) if rng.random() < 0.7 else None))
         elif r < 0.38:
-            out.append(("pl", rng.choice(["p.m3u", "lists/q.m3u", "ö.pls", "playlist"]), gen_ts(rng) if rng.random() < 0.7 else None))
+            out.append(("pl", rng.choice(["p.m3u", "lists/q.m3u", "ö.pls", "playlist", "", " ", "a: b"]), gen_ts(rng) if rng.random() < 0.7 else None))
         else:
             out.append(gen_song(rng, names, mpd_like=style < 0.25))
     return out
